@@ -711,6 +711,31 @@ struct QExpression {
         }
     }
 
+    // -1 / 0 / 1 for two non-real operands: a Natural is unsigned, an Integer is signed.
+    static int compareIntegers(const QExpression &left, const QExpression &right) noexcept {
+        const bool left_negative  = ((left.Type == ExpressionType::IntegerNumber) && (left.Value.Number.Integer < 0));
+        const bool right_negative = ((right.Type == ExpressionType::IntegerNumber) && (right.Value.Number.Integer < 0));
+
+        if (left_negative != right_negative) {
+            return (left_negative ? -1 : 1);
+        }
+
+        if (left_negative) {
+            return ((left.Value.Number.Integer < right.Value.Number.Integer)
+                        ? -1
+                        : int(left.Value.Number.Integer > right.Value.Number.Integer));
+        }
+
+        return ((left.Value.Number.Natural < right.Value.Number.Natural)
+                    ? -1
+                    : int(left.Value.Number.Natural > right.Value.Number.Natural));
+    }
+
+    static double toReal(const QExpression &expr) noexcept {
+        return ((expr.Type == ExpressionType::NaturalNumber) ? double(expr.Value.Number.Natural)
+                                                             : double(expr.Value.Number.Integer));
+    }
+
     template <typename Number_T>
     bool operator>(const Number_T number) const noexcept {
         switch (Type) {
@@ -735,7 +760,7 @@ struct QExpression {
                     return (double(Value.Number.Natural) >= right.Value.Number.Real);
                 }
 
-                return (Value.Number.Integer >= right.Value.Number.Integer);
+                return (compareIntegers(*this, right) >= 0);
             }
 
             case ExpressionType::IntegerNumber: {
@@ -743,12 +768,12 @@ struct QExpression {
                     return (double(Value.Number.Integer) >= right.Value.Number.Real);
                 }
 
-                return (Value.Number.Integer >= right.Value.Number.Integer);
+                return (compareIntegers(*this, right) >= 0);
             }
 
             case ExpressionType::RealNumber: {
                 if (right.Type != ExpressionType::RealNumber) {
-                    return (Value.Number.Real >= double(right.Value.Number.Integer));
+                    return (Value.Number.Real >= toReal(right));
                 }
             }
 
@@ -766,7 +791,7 @@ struct QExpression {
                     return (double(Value.Number.Natural) > right.Value.Number.Real);
                 }
 
-                return (Value.Number.Integer > right.Value.Number.Integer);
+                return (compareIntegers(*this, right) > 0);
             }
 
             case ExpressionType::IntegerNumber: {
@@ -774,12 +799,12 @@ struct QExpression {
                     return (double(Value.Number.Integer) > right.Value.Number.Real);
                 }
 
-                return (Value.Number.Integer > right.Value.Number.Integer);
+                return (compareIntegers(*this, right) > 0);
             }
 
             case ExpressionType::RealNumber: {
                 if (right.Type != ExpressionType::RealNumber) {
-                    return (Value.Number.Real > double(right.Value.Number.Integer));
+                    return (Value.Number.Real > toReal(right));
                 }
             }
 
@@ -797,7 +822,7 @@ struct QExpression {
                     return (double(Value.Number.Natural) <= right.Value.Number.Real);
                 }
 
-                return (Value.Number.Integer <= right.Value.Number.Integer);
+                return (compareIntegers(*this, right) <= 0);
             }
 
             case ExpressionType::IntegerNumber: {
@@ -805,12 +830,12 @@ struct QExpression {
                     return (double(Value.Number.Integer) <= right.Value.Number.Real);
                 }
 
-                return (Value.Number.Integer <= right.Value.Number.Integer);
+                return (compareIntegers(*this, right) <= 0);
             }
 
             case ExpressionType::RealNumber: {
                 if (right.Type != ExpressionType::RealNumber) {
-                    return (Value.Number.Real <= double(right.Value.Number.Integer));
+                    return (Value.Number.Real <= toReal(right));
                 }
             }
 
@@ -828,7 +853,7 @@ struct QExpression {
                     return (double(Value.Number.Natural) < right.Value.Number.Real);
                 }
 
-                return (Value.Number.Integer < right.Value.Number.Integer);
+                return (compareIntegers(*this, right) < 0);
             }
 
             case ExpressionType::IntegerNumber: {
@@ -836,12 +861,12 @@ struct QExpression {
                     return (double(Value.Number.Integer) < right.Value.Number.Real);
                 }
 
-                return (Value.Number.Integer < right.Value.Number.Integer);
+                return (compareIntegers(*this, right) < 0);
             }
 
             case ExpressionType::RealNumber: {
                 if (right.Type != ExpressionType::RealNumber) {
-                    return (Value.Number.Real < double(right.Value.Number.Integer));
+                    return (Value.Number.Real < toReal(right));
                 }
             }
 
@@ -859,7 +884,7 @@ struct QExpression {
                     return (double(Value.Number.Natural) == right.Value.Number.Real);
                 }
 
-                return (Value.Number.Integer == right.Value.Number.Integer);
+                return (compareIntegers(*this, right) == 0);
             }
 
             case ExpressionType::IntegerNumber: {
@@ -867,12 +892,12 @@ struct QExpression {
                     return (double(Value.Number.Integer) == right.Value.Number.Real);
                 }
 
-                return (Value.Number.Integer == right.Value.Number.Integer);
+                return (compareIntegers(*this, right) == 0);
             }
 
             case ExpressionType::RealNumber: {
                 if (right.Type != ExpressionType::RealNumber) {
-                    return (Value.Number.Real == double(right.Value.Number.Integer));
+                    return (Value.Number.Real == toReal(right));
                 }
             }
 
